@@ -31,7 +31,8 @@
 
    Every movement and every read takes oracle arguments: [picks] (what sync.Pool.Get hands back: any pooled slice of
    the class, or none) and [extra] (which OTHER blocks the call acquires or drops on the way: the other children of
-   the merged iterator reposition themselves; index and filter blocks).  The theorems quantify over them.
+   the merged iterator reposition themselves; index and filter blocks; a movement has a second list for where the
+   children rest once the entry has been exposed).  The theorems quantify over them.
 
    Not modelled: reallocation by append (a dbIter buffer that grows gets a new array and the old one stays as it is:
    the model always reuses the array, the worst case), the garbage collector, the Go scheduler (one step at a time;
@@ -640,6 +641,14 @@ Definition xiter_move (md : xmodes) (c : config) (s : xstate) (i : nat) (m : mov
       else (s, None)
   end.
 
+(* dbIter.prev() exposes an entry and goes on until the merged iterator rests on the entry BEFORE it (that is why it
+   must save key and value first); dbIter.next() rests on the exposed entry.  [ex2]: where the children are after the
+   call, applied once the entry has been exposed (forward: normally nothing). *)
+Definition xiter_move2 (md : xmodes) (c : config) (s : xstate) (i : nat) (m : move) (ex : extras) (pk : picks) (ex2 : extras)
+  : xstate * option xout :=
+  let r := xiter_move md c s i m ex pk in
+  (match snd r with Some (XBool true) => children_move c (fst r) i ex2 | _ => fst r end, snd r).
+
 Definition xiter_read (s : xstate) (i : nat) : option xout :=
   match get_iter s i with
   | None => None
@@ -702,7 +711,7 @@ Inductive xop :=
 | XGetBegin (a : acc) (k : bytes) (ex : extras) (pk : picks)
 | XGetEnd (j : nat)
 | XIterNew (a : acc)
-| XIterMove (i : nat) (m : move) (ex : extras) (pk : picks)
+| XIterMove (i : nat) (m : move) (ex : extras) (pk : picks) (ex2 : extras)
 | XIterRead (i : nat)
 | XIterRelease (i : nat)
 | XTxnOpen | XTxnPut (k v : bytes) | XTxnDelete (k : bytes) | XTxnCommit (pick : option nat) | XTxnDiscard
@@ -720,7 +729,7 @@ Definition xstep (md : xmodes) (c : config) (s : xstate) (o : xop) : xstate * op
   | XGetBegin a k ex pk => (xget_begin c s a k ex pk, None)
   | XGetEnd j => xget_end md c s j
   | XIterNew a => (xnew_iter s a, None)
-  | XIterMove i m ex pk => xiter_move md c s i m ex pk
+  | XIterMove i m ex pk ex2 => xiter_move2 md c s i m ex pk ex2
   | XIterRead i => (s, xiter_read s i)
   | XIterRelease i => (xiter_release c s i, None)
   | XTxnOpen => (xtxn_open s, None)
@@ -754,7 +763,7 @@ Definition x_no_scribbles (p : list xop) : list xop := filter (fun o => negb (x_
 (* does the operation move or release iterator i? *)
 Definition xmoves (i : nat) (o : xop) : bool :=
   match o with
-  | XIterMove j _ _ _ | XIterRelease j => Nat.eqb i j
+  | XIterMove j _ _ _ _ | XIterRelease j => Nat.eqb i j
   | _ => false
   end.
 
